@@ -131,6 +131,27 @@ def build(cfg, values=None):
             for i in range(size):
                 if cf[i] is not cf0[i]:
                     obs.append(('caller-full-vector-unchanged[%d]' % i, Sym.lift(1), Sym.lift(0)))
+        elif variant == 'load-helpers':
+            # add_SPL / add_force as the FIRST calls on a freshly defined shell: the stored loads sit at pt * (meridian length of the
+            # current definition), at the angle in radians, with the documented components, in the constant / incrementable list asked for
+            given = cfg['given']
+            cc.alphadeg = 0. if cfg.get('cylinder') else V('alphadeg')
+            for nm in given:
+                setattr(cc, nm, V(nm))
+            PL, pt, th = V('PL'), V('pt'), V('thetadeg')
+            cc.add_SPL(PL, pt=pt, thetadeg=th)
+            cc.add_SPL(V('PL2'), pt=V('pt2'), thetadeg=V('thetadeg2'), increment=True)
+            cc.add_force(V('fx_x'), V('f_thetadeg'), V('fx'), V('ft'), V('fz'))
+            cc.add_force(V('gx_x'), V('g_thetadeg'), V('gx'), V('gt'), V('gz'), increment=True)
+            cc._rebuild()
+            Lm = cc.L
+            want_c = [[pt * Lm, ctx.deg2rad(th), 0, 0, -PL], [V('fx_x'), ctx.deg2rad(V('f_thetadeg')), V('fx'), V('ft'), V('fz')]]
+            want_i = [[V('pt2') * Lm, ctx.deg2rad(V('thetadeg2')), 0, 0, -V('PL2')], [V('gx_x'), ctx.deg2rad(V('g_thetadeg')), V('gx'), V('gt'), V('gz')]]
+            for tag, got, want in (('constant', cc.forces, want_c), ('incrementable', cc.forces_inc, want_i)):
+                obs.append(('load-list-length[%s]' % tag, Sym.lift(len(got)), Sym.lift(len(want))))
+                for q, (g_, w_) in enumerate(zip(got, want)):
+                    for k_, nm in enumerate(('x', 'theta', 'fx', 'ftheta', 'fz')):
+                        obs.append(('stored-load[%s,%d,%s]' % (tag, q, nm), Sym.lift(g_[k_]), Sym.lift(w_[k_])))
         elif variant == 'fext':
             cc.r2, cc.L = V('r2'), V('L')
             cc.alphadeg = V('alphadeg')
@@ -302,6 +323,9 @@ def configs(tier, seed):
     quick = tier == 'quick'
     for given in (('r1', 'H'), ('r1', 'L'), ('r2', 'H'), ('r2', 'L'), ('r1', 'r2')):
         out.append({'variant': 'geometry', 'given': given, 'group': 'geometry:%s+%s' % given, 'm': 1, 'n': 1})
+    for given in (('r2', 'H'), ('r1', 'H'), ('r2', 'L'), ('r1', 'r2')):
+        out.append({'variant': 'load-helpers', 'given': given, 'group': 'load-helpers-first-on-a-fresh-shell:%s+%s' % given, 'm': 1, 'n': 1})
+    out.append({'variant': 'load-helpers', 'given': ('r2', 'H'), 'cylinder': True, 'group': 'load-helpers-first-on-a-fresh-shell:cylinder', 'm': 1, 'n': 1})
     for given in (('r1', 'L'), ('r2', 'H'), ('r2', 'L'), ('r1', 'H')):
         out.append({'variant': 'geometry', 'given': given, 'cylinder': True, 'group': 'geometry-cylinder:%s+%s' % given, 'm': 1, 'n': 1})
     models = ['clpt_donnell_bc1', 'clpt_donnell_bc2'] if quick else list(COMMONS)
@@ -328,7 +352,7 @@ def main():
         'subset, and the load vector for point forces (constant and incrementable), torque and axial force against the virtual work '
         'computed with the package own displacement recovery (de-Cythonised commons kernels, trigonometric values as atoms), plus '
         'the prescribed-displacement right-hand-side terms; z3 qfnra-nlsat per entry, exact-rational replay.'))
-    run.encoded('compmech/conecyl/conecyl.py', 'ConeCyl._rebuild, get_size, exclude_dofs_matrix, calc_full_c, calc_fext, uvw')
+    run.encoded('compmech/conecyl/conecyl.py', 'ConeCyl._rebuild, get_size, exclude_dofs_matrix, calc_full_c, calc_fext, uvw, add_SPL, add_force')
     for rel in COMMONS.values():
         run.encoded(rel, 'fg, cfgss, fuvw, cfuvw, cfwx, cfwt')
     cf = configs(run.tier, run.seed)
